@@ -119,10 +119,24 @@ def entry_section():
         calls = [ast.unparse(c.func) for c in ast.walk(fn) if isinstance(c, ast.Call)]
         ob("loads:default-parser-is-OmniParser", "OmniParser" in calls, calls)
         fn = prog.functions.get(f"{mod}.dump")
-        rets = sorted(ast.unparse(n.value) for n in ast.walk(fn) if isinstance(n, ast.Return))
-        want = sorted(["p.write_text(dumps(module, **kwargs))", "path.write(dumps(module, **kwargs))",
-                       "path.write(dumps(module, **kwargs).encode())"])
-        ob("dump:writes-exactly-dumps()-and-returns-the-callee-count", rets == want, rets)
+        # every return of dump() is the count reported by one write of exactly dumps(module, **kwargs) (directly, or through a
+        # name assigned once from it), as text or as its UTF-8 encoding
+        single = {}
+        for n in ast.walk(fn):
+            if isinstance(n, ast.Assign) and len(n.targets) == 1 and isinstance(n.targets[0], ast.Name):
+                single.setdefault(n.targets[0].id, []).append(ast.unparse(n.value))
+
+        def norm(e):
+            t = ast.unparse(e)
+            for nm, vals in single.items():
+                if len(vals) == 1 and vals[0] == "dumps(module, **kwargs)":
+                    t = t.replace(f"({nm})", "(dumps(module, **kwargs))").replace(f"({nm}.encode())", "(dumps(module, **kwargs).encode())")
+            return t
+        rets = sorted({norm(n.value) for n in ast.walk(fn) if isinstance(n, ast.Return)})
+        allowed_rets = {"p.write_text(dumps(module, **kwargs))", "path.write(dumps(module, **kwargs))",
+                        "path.write(dumps(module, **kwargs).encode())"}
+        ob("dump:writes-exactly-dumps()-and-returns-the-callee-count", bool(rets) and set(rets) <= allowed_rets
+           and "p.write_text(dumps(module, **kwargs))" in rets, rets)
         fn = prog.functions.get(f"{mod}.dumps")
         rets = [ast.unparse(n.value) for n in ast.walk(fn) if isinstance(n, ast.Return)]
         ob("dumps:returns-encoder.encode(module)-only", rets == ["encoder.encode(module)"], rets)
